@@ -73,10 +73,16 @@ type Flow struct {
 	Cond *Cond
 }
 
+// DataObj is a declared data object with a reference of the given name and a JSON body.
+type DataObj struct {
+	ID, Name, Body string
+}
+
 type Graph struct {
 	ID    string
 	Nodes []*Node
 	Flows []*Flow
+	Data  []DataObj
 	byID  map[string]*Node
 	Sub   *Node // the sub-process node this graph is the content of (nil for the top level)
 	nflow *int
@@ -260,6 +266,10 @@ func (g *Graph) writeBody(b *strings.Builder, ind string) {
 			fmt.Fprintf(b, "%s</bpmn:boundaryEvent>\n", ind)
 		}
 	}
+	for _, d := range g.Data {
+		fmt.Fprintf(b, "%s<bpmn:dataObjectReference id=\"ref_%s\" name=\"%s\" dataObjectRef=\"%s\"/>\n", ind, d.ID, esc(d.Name), d.ID)
+		fmt.Fprintf(b, "%s<bpmn:dataObject id=\"%s\"><bpmn:extensionElements><olive:dataObjectBody><![CDATA[%s]]></olive:dataObjectBody></bpmn:extensionElements></bpmn:dataObject>\n", ind, d.ID, d.Body)
+	}
 	for _, f := range g.Flows {
 		if f.Cond == nil {
 			fmt.Fprintf(b, "%s<bpmn:sequenceFlow id=\"%s\" sourceRef=\"%s\" targetRef=\"%s\"/>\n", ind, f.ID, f.Src.ID, f.Dst.ID)
@@ -357,6 +367,11 @@ func IntLt(name string, k int64) *Cond {
 // IntGe is true iff the integer variable is at least k.
 func IntGe(name string, k int64) *Cond {
 	return &Cond{Src: fmt.Sprintf("%s >= %d", name, k), Eval: func(v map[string]any) bool { return intOf(v[name]) >= k }}
+}
+
+// DataObjConst reads a boolean field of a declared data object whose body makes it b.
+func DataObjConst(object, field string, b bool) *Cond {
+	return &Cond{Src: fmt.Sprintf("getDataObject('%s').%s == true", object, field), Eval: func(map[string]any) bool { return b }}
 }
 
 // XPathConst is a constant condition in the XPath language.
